@@ -159,7 +159,15 @@ impl Scenario for BlockLockstep {
         // block body
         let avoid_rom_regs = high && !rng.chance(1, 50);
         let max_body = if thorough { rng.pick(&[0u64, 1, 3, 8, 24, 60, 200]) } else { rng.pick(&[0u64, 1, 2, 4, 8, 24]) };
-        let nbody = rng.below(max_body + 1) as usize;
+        // operand grid: in 256 of every 400 passes over the encodings the focus instruction is reached with (A, operand)
+        // taken systematically from a 16 x 16 grid of boundary values (all flag states are drawn), with nothing in front of it
+        const GRID: [u8; 16] = [0x00, 0x01, 0x0f, 0x10, 0x7f, 0x80, 0xfe, 0xff, 0x09, 0x0a, 0x99, 0x9a, 0xa0, 0x66, 0x60, 0x06];
+        let round = (index / 500) % 400;
+        let writes_via_bc_de = !cb && matches!(fop, 0x02 | 0x12);
+        let grid: Option<(u8, u8)> = if round < 256 && !writes_via_bc_de { Some((GRID[(round % 16) as usize], GRID[(round / 16) as usize])) } else { None };
+        let uses_hl_mem = if cb { fop & 7 == 6 } else { matches!(fop, 0x34 | 0x35 | 0x36 | 0x22 | 0x2a | 0x32 | 0x3a) || ((0x40..=0x7f).contains(&fop) && (fop & 7 == 6 || (fop >> 3) & 7 == 6)) || ((0x80..=0xbf).contains(&fop) && fop & 7 == 6) };
+        case.set("grid", grid.is_some() as i64);
+        let nbody = if grid.is_some() { 0 } else { rng.below(max_body + 1) as usize };
         let mut code: Vec<u8> = Vec::new();
         let focus_is_term = !cb && sm83::is_terminator(fop);
         for _ in 0..nbody {
@@ -169,7 +177,14 @@ impl Scenario for BlockLockstep {
             if cb {
                 code.extend([0xcb, fop]);
             } else {
-                code.extend(sm83::encode(fop, rng, avoid_rom_regs));
+                let mut enc = sm83::encode(fop, rng, avoid_rom_regs);
+                if let Some((_, o)) = grid {
+                    // immediate operand of two-byte data instructions comes from the grid as well
+                    if enc.len() == 2 && !matches!(fop, 0x10 | 0x18 | 0x20 | 0x28 | 0x30 | 0x38 | 0xe0 | 0xf0) {
+                        enc[1] = o;
+                    }
+                }
+                code.extend(enc);
             }
         }
         let term = if focus_is_term { fop } else { rng.pick(&sm83::TERMINATORS) };
@@ -256,6 +271,29 @@ impl Scenario for BlockLockstep {
             }
             let cycles = if rng.chance(1, 4) { 5 } else { 0 };
             vec![af, bc, de, hl, sp, addr as i64, cycles]
+        };
+        // grid passes: the first execution starts from the grid state
+        let mut grid_regs: Option<Vec<i64>> = None;
+        if let Some((a, o)) = grid {
+            let mut r = draw_regs(rng);
+            r[0] = ((a as i64) << 8) | (r[0] & 0xf0);
+            let oo = ((o as i64) << 8) | o as i64;
+            r[1] = oo;
+            r[2] = oo;
+            if uses_hl_mem {
+                let hl = 0xc000 + rng.below(0x1f00) as i64;
+                r[3] = hl;
+                case.push("w", &[hl, o as i64]);
+            } else {
+                r[3] = oo;
+            }
+            grid_regs = Some(r);
+        }
+        let mut draw_regs = |rng: &mut Rng| -> Vec<i64> {
+            match grid_regs.take() {
+                Some(r) => r,
+                None => draw_regs(rng),
+            }
         };
         let age = rng.below(8);
         case.set("age", age as i64);
@@ -441,6 +479,9 @@ impl Scenario for BlockLockstep {
                                 ctx.cov.mark("giant_block_cycle_sums", sni.get(if mode == 1 { "last_block_cycles" } else { "cycles" }));
                             }
                             ctx.cov.mark("distinct", cell);
+                            if case.get("grid") != 0 && execs == 1 {
+                                ctx.cov.mark("operand_grid_cells", (fenc as u64) << 16 | ((before.af as u64 >> 8) & 0xff) << 8 | (before.bc as u64 & 0xff));
+                            }
                             if before.ip < 0x4000 && i.regs().ip == 0x4000 && case.get("falls_through") != 0 {
                                 ctx.cov.hit("probe.fixed_bank_block_ended_at_the_bank_boundary");
                             }
